@@ -1642,6 +1642,12 @@ func commentWindowUses(w ssa.Value, seen map[ssa.Value]bool) (int, bool) {
 			switch name := calleeName(r.Common()); {
 			case "strings.Join" == name, "slices.Clone" == name, strings.HasPrefix(name, "slices.Clone["):
 				continue
+			case strings.HasPrefix(name, "slices.IndexFunc"), strings.HasPrefix(name, "slices.ContainsFunc"), strings.HasPrefix(name, "slices.Index["), strings.HasPrefix(name, "slices.Contains["):
+				/* Searched, not changed (the predicate is handed the
+				elements by value). */
+				if len(r.Common().Args) > 0 && r.Common().Args[0] == w {
+					continue
+				}
 			}
 			return 0, false
 		case *ssa.IndexAddr:
